@@ -598,12 +598,10 @@ public:
 	bool SerializeValue(T& value)
 	{
 		CheckEnd();
-		if (mMsgPackReader->ReadValue(value))
-		{
-			++mIndex;
-			return true;
-		}
-		return false;
+		// The value is consumed from the stream even when it was skipped according to the policy
+		const bool result = mMsgPackReader->ReadValue(value);
+		++mIndex;
+		return result;
 	}
 
 	/// <summary>
@@ -625,9 +623,10 @@ public:
 	std::optional<CMsgPackReadArrayScope<TReader>> OpenArrayScope(size_t)
 	{
 		CheckEnd();
-		if (size_t sz = 0; mMsgPackReader->ReadArraySize(sz))
-		{
-			++mIndex;
+		size_t sz = 0;
+		const bool result = mMsgPackReader->ReadArraySize(sz);
+		++mIndex;
+		if (result) {
 			return std::make_optional<CMsgPackReadArrayScope<TReader>>(sz, mMsgPackReader, GetContext(), this);
 		}
 		return std::nullopt;
@@ -636,9 +635,10 @@ public:
 	std::optional<CMsgPackReadObjectScope<TReader>> OpenObjectScope(size_t)
 	{
 		CheckEnd();
-		if (size_t sz = 0; mMsgPackReader->ReadMapSize(sz))
-		{
-			++mIndex;
+		size_t sz = 0;
+		const bool result = mMsgPackReader->ReadMapSize(sz);
+		++mIndex;
+		if (result) {
 			return std::make_optional<CMsgPackReadObjectScope<TReader>>(sz, mMsgPackReader, GetContext(), this);
 		}
 		return std::nullopt;
